@@ -25,7 +25,7 @@ func init() {
 		Explanation: "(R1) each hand-written decoder (Array.UnmarshalVTNoAlloc, Item.UnmarshalVTNoAlloc, marshaller.unmarshalVT incl. its map-entry sub-decoder) dispatches on exactly the field numbers of the generated message, checks the wire type the schema implies and assigns the matching struct field, and the key/value of a map entry come from that entry alone (no decoding state carried from one entry to the next); " +
 			"(R2) the tag constants of the hand-written store encoder equal (field<<3)|wiretype of the schema, are written in the role they are named for, and the byte-size precomputation accounts exactly the components the writer emits; " +
 			"(R3) in unmarshalVT every map insertion is paired with dataSize += len(key)+len(value), the default marshaller returns that count, and the default marshaller is not one that reports a constant size; " +
-			"(R4) MarshalFast/UnmarshalFast use the Array message on both sides (standard MarshalVT ↔ no-alloc decoder) and rebuild the map keyed by BlockId. Also (R1) every varint accumulator of the decoders enters its loop as 0. Also (R2) store marshallers keep no state between calls.",
+			"(R4) MarshalFast/UnmarshalFast use the Array message on both sides (standard MarshalVT ↔ no-alloc decoder) and rebuild the map keyed by BlockId. Also (R1) every varint accumulator of the decoders enters its loop as 0. Also (R2) store marshallers keep no state between calls. Also (R4) a retried download adds nothing to a captured buffer.",
 		NotCovered:  "The varint/length arithmetic inside the copied decoder loops and byte-exact agreement on generated data (the generated protobuf/vtproto code is trusted).",
 		Assumptions: []string{"generated struct tags are the schema", "protobuf wire types: varint=0, fixed64=1, bytes=2, fixed32=5"},
 	})
@@ -744,6 +744,7 @@ func runC18(p *core.Prog, r *core.Report) {
 	})
 	r.Guard("C18.R4", "fresh-reader", "upload reader per attempt", func() { checkFreshReaderPerAttempt(p, r, "C18.R4") })
 	r.Guard("C18.R2", "marshallers", "stateless marshallers", func() { checkMarshallersStateless(p, r, "C18.R2") })
+	r.Guard("C18.R4", "download", "a retried download starts from nothing", func() { checkRetryAccumulatesNothing(p, r, "C18.R4") })
 	r.MinInstances("C18.R4", 4)
 }
 
